@@ -236,6 +236,10 @@ class C20(Harness):
             out["direct.fit"] = attempt(lambda: r.fit(good), lambda: r.is_fitted)
             s = STK([("a", Member(p=1))], final_regressor=Reg())
             out["stacking.fit"] = attempt(lambda: s.fit(good), lambda: s.is_fitted)
+            # a horizon-dependent forecaster that was fitted before: a second fit still needs its horizon
+            r9 = red.make_reduction(Reg(), strategy="direct", window_length=1)
+            r9.fit(good, fh=np.array([1]))
+            out["direct.refit-without-fh"] = attempt(lambda: r9.fit(good), lambda: r9.is_fitted)
             out["ok:naive.predict"] = attempt(lambda: NF("last").fit(good).predict(1))
             out["ok:fit-fh-then-predict"] = attempt(lambda: NF("last").fit(good, fh=1).predict())
         elif k == "fh-differs-from-fit":
